@@ -6,6 +6,7 @@ executor instead of a process pool.
 """
 import asyncio
 import concurrent.futures
+import concurrent.futures.process  # the server names concurrent.futures.process.BrokenProcessPool in an except clause
 import functools
 import io
 import json
